@@ -2142,3 +2142,100 @@ Corollary c11_exec_means_sound_files fs roots kind ts ex :
 Proof.
   intros E. pose proof (c11_correct fs roots kind ts) as H. rewrite E in H. tauto.
 Qed.
+
+(** * The order used by [sort.Strings]: transitivity, and canonical form of
+    [sort_dedup] *)
+
+From Coq Require Import NArith Ascii.
+
+Lemma ascii_cmp_eq a b : Ascii.compare a b = Eq -> a = b.
+Proof. apply Ascii.compare_eq_iff. Qed.
+
+Lemma ascii_cmp_refl a : Ascii.compare a a = Eq.
+Proof. unfold Ascii.compare. apply N.compare_refl. Qed.
+
+Lemma ascii_cmp_lt_trans a b c :
+  Ascii.compare a b = Lt -> Ascii.compare b c = Lt -> Ascii.compare a c = Lt.
+Proof. unfold Ascii.compare. rewrite !N.compare_lt_iff. lia. Qed.
+
+Lemma str_cmp_refl s : String.compare s s = Eq.
+Proof. induction s as [|c s IH]; simpl; [reflexivity|]. now rewrite ascii_cmp_refl. Qed.
+
+Lemma str_cmp_lt_trans : forall a b c,
+  String.compare a b = Lt -> String.compare b c = Lt -> String.compare a c = Lt.
+Proof.
+  induction a as [|x a IH]; intros [|y b] [|z c]; simpl; try congruence.
+  destruct (Ascii.compare x y) eqn:Exy; try discriminate;
+    destruct (Ascii.compare y z) eqn:Eyz; try discriminate; intros H1 H2.
+  - apply ascii_cmp_eq in Exy, Eyz. subst. rewrite ascii_cmp_refl. eauto.
+  - apply ascii_cmp_eq in Exy. subst. now rewrite Eyz.
+  - apply ascii_cmp_eq in Eyz. subst. now rewrite Exy.
+  - now rewrite (ascii_cmp_lt_trans _ _ _ Exy Eyz).
+Qed.
+
+Lemma str_leb_trans a b c :
+  String.leb a b = true -> String.leb b c = true -> String.leb a c = true.
+Proof.
+  unfold String.leb.
+  destruct (String.compare a b) eqn:Eab; try discriminate;
+    destruct (String.compare b c) eqn:Ebc; try discriminate; intros _ _.
+  - apply String.compare_eq_iff in Eab, Ebc. subst. now rewrite str_cmp_refl.
+  - apply String.compare_eq_iff in Eab. subst. now rewrite Ebc.
+  - apply String.compare_eq_iff in Ebc. subst. now rewrite Eab.
+  - now rewrite (str_cmp_lt_trans _ _ _ Eab Ebc).
+Qed.
+
+Lemma str_leb_refl a : String.leb a a = true.
+Proof. unfold String.leb. now rewrite str_cmp_refl. Qed.
+
+(** sorted, without duplicates *)
+Inductive ssorted : list name -> Prop :=
+| ss_nil : ssorted []
+| ss_cons x l : (forall y, In y l -> String.leb x y = true /\ x <> y) -> ssorted l -> ssorted (x :: l).
+
+Lemma insert_sorted_ssorted x l : ssorted l -> ssorted (insert_sorted x l).
+Proof.
+  induction 1 as [|y l Hy Hl IH]; simpl.
+  - constructor; [intros z []|constructor].
+  - destruct (String.eqb_spec x y) as [->|Hne]; [now constructor|].
+    destruct (String.leb x y) eqn:Hle.
+    + constructor; [|now constructor].
+      intros z [<-|Hz]; [auto|]. destruct (Hy z Hz) as [Hyz Hn]. split.
+      * eapply str_leb_trans; eauto.
+      * intros ->. apply Hne. now apply String.leb_antisym.
+    + constructor; [|assumption].
+      intros z Hz. apply insert_sorted_In in Hz. destruct Hz as [->|Hz]; [|auto].
+      split; [|congruence]. destruct (String.leb_total x y) as [H|H]; congruence.
+Qed.
+
+Lemma sort_dedup_ssorted l : ssorted (sort_dedup l).
+Proof.
+  unfold sort_dedup. induction l as [|x l IH]; simpl; [constructor|].
+  now apply insert_sorted_ssorted.
+Qed.
+
+Lemma ssorted_ext a : ssorted a -> forall b, ssorted b ->
+  (forall x, In x a <-> In x b) -> a = b.
+Proof.
+  induction 1 as [|x a Hx Ha IH]; intros b Hb Hin.
+  - destruct b as [|y b]; [reflexivity|]. exfalso. apply (Hin y). now left.
+  - destruct Hb as [|y b Hy Hb']; [exfalso; apply (Hin x); now left|].
+    assert (x = y).
+    { assert (H1 : In x (y :: b)) by (apply Hin; now left).
+      assert (H2 : In y (x :: a)) by (apply Hin; now left).
+      destruct H1 as [->|H1]; [reflexivity|]. destruct H2 as [->|H2]; [reflexivity|].
+      destruct (Hx y H2), (Hy x H1). now apply String.leb_antisym. }
+    subst y. f_equal. apply IH; [assumption|].
+    intros z. split; intros Hz.
+    + assert (H : In z (x :: b)) by (apply Hin; now right).
+      destruct H as [<-|H]; [|assumption]. destruct (Hx x Hz). congruence.
+    + assert (H : In z (x :: a)) by (apply Hin; now right).
+      destruct H as [<-|H]; [|assumption]. destruct (Hy x Hz). congruence.
+Qed.
+
+Lemma sort_dedup_ext a b :
+  (forall x, In x a <-> In x b) -> sort_dedup a = sort_dedup b.
+Proof.
+  intros H. apply ssorted_ext; try apply sort_dedup_ssorted.
+  intros x. rewrite !sort_dedup_In. apply H.
+Qed.
